@@ -106,6 +106,8 @@ def reuse_programs():
     # the same comparison in both spellings (CSE must not identify x > c with c <= x)
     yield "dag16", ('Signal x = ("signal-A", 6);\nSignal y = ("signal-B", 4);\nSignal p = (x > 100) : y;\nSignal q = (100 <= x) : y;\n'
                     'Signal r = (x < 7) + (7 >= x) + (x <= 7) + (7 > x);\nSignal u = ((x < y) : 5) + ((y >= x) : 5);\n')
+    # an int variable initialised by a constant expression is itself a constant (signal-literal values need integers)
+    yield "dag17", ('int x = 7;\nint y = x * 3;\nSignal s = ("signal-A", y);\nSignal a = ("signal-B", 2);\nSignal r = s + a;\nSignal q = a * (y - 1);\n')
     yield "dag15b", ('Signal a = ("signal-A", 4);\nSignal b = ("signal-A", 5);\nSignal r = (a + b) - a;\nSignal q = (a + b) * b;\n')
 
 
@@ -170,6 +172,8 @@ def c10_scope(tier):
     P.append(("const-reader-copy", 'func g(Signal s, Signal t) { Signal w = s * 3; Signal u = (t > 2) : s; return u + w; }\n' + A5 + 'Signal r = g(7, a);\n'))
     P.append(("const-reader-prop", 'func g(Signal s, Signal t) { Signal w = s * 3; Entity l = place("small-lamp", 0, 0); l.enable = s; return t + w; }\n'
               + A5 + 'Signal r = g(7, a);\n'))
+    P.append(("fold-bundle-select", 'Signal a = ("signal-C", 5);\nSignal r = ({ ("signal-A", 5), ("signal-B", 6) }["signal-A"] * 2) + a;\n'
+              'Bundle b = { ("signal-A", 7), ("signal-B", 9) };\nSignal q = b["signal-B"] * 3 + a;\n'))
     P.append(("const-reader-threshold", 'func g(Signal s, Signal t) { Signal w = s * s; return (t > s) : w; }\n' + A5 + 'Signal r = g(7, a);\n'))
     for k in ((2, 3, 4) if tier == "quick" else range(1, 9)):
         lines = ['Signal a = ("signal-A", 10);', "Signal x = a + 1;"]
